@@ -961,6 +961,9 @@ def check_size_fixpoint(ctx, rep, f):
         snaps = [st for st in _loop_stmts(loop) if isinstance(st, ast.Assign) and len(st.targets) == 1 and u(st.targets[0]) == snap
                  and isinstance(st.value, ast.Call) and isinstance(st.value.func, ast.Name) and st.value.func.id == 'len' and st.value.args and u(st.value.args[0]) == coll]
         muts = [st for (st, name) in _mutations_of(loop, {coll})]
+        if not muts and not snaps:
+            # `while i < len(w)` over a collection the loop never changes: an index loop, not a size-controlled fixpoint
+            continue
         done += 1
         if not snaps:
             rep.violates(RULE + '.W5', f, loop, 'the loop compares {} with len({}) but never records len({}) inside the loop'.format(snap, coll, coll))
